@@ -25,7 +25,10 @@ def handleMfTraceHc4 (a : Args) : String :=
     if dict = 0 then "bad-args" else
     let d : Array UInt8 := (data.map fun b => UInt8.ofNat b).toArray
     let c : Hc4.Cfg := { dict := dict, niceLen := nice, mlmax := mlmax, depthLimit := depth }
-    let tr := (Hc4.runScript MfGen.hc4Params c d script).1
+    -- `lzstart=<n>`: the renormalising model (`Model/Hc4Renorm.lean`) started at `lz_pos = n`
+    let tr := match a.nat? "lzstart" with
+      | some lz => (Hc4.runScriptN MfGen.hc4Norm MfGen.hc4Params c d lz script).1
+      | none => (Hc4.runScript MfGen.hc4Params c d script).1
     let s := mfTraceString tr
     let nm := tr.foldl (fun n f => n + f.2.length) 0
     let base := s!"ok {tr.length} {nm} {fnv (s.toUTF8.toList.map (·.toNat))}"
